@@ -1,30 +1,27 @@
 use good_lp::*;
+fn run(name: &str, nvars: usize, nonneg: &[bool], obj: &[f64], rows: &[(&[f64], i32, f64)]) {
+    let mut vars = ProblemVariables::new();
+    let xs: Vec<Variable> = (0..nvars).map(|i| if nonneg[i] { vars.add(variable().min(0.0)) } else { vars.add(variable().min(f64::NEG_INFINITY).max(f64::INFINITY)) }).collect();
+    let mut e = Expression::from(0.0);
+    for i in 0..nvars { e = e + obj[i] * xs[i]; }
+    let mut m = vars.minimise(e).using(clarabel);
+    for (c, rel, b) in rows {
+        let mut e = Expression::from(0.0);
+        for i in 0..nvars { e = e + c[i] * xs[i]; }
+        m.add_constraint(match rel { 0 => e.eq(*b), 1 => e.leq(*b), _ => e.geq(*b) });
+    }
+    match m.solve() {
+        Ok(s) => { let i = s.inner(); println!("{name}: status {:?} r_prim={:e} r_dual={:e} obj={:e} obj_dual={:e} iters={} x={:?}", i.status, i.r_prim, i.r_dual, i.obj_val, i.obj_val_dual, i.iterations, i.x) }
+        Err(e) => println!("{name}: err {e:?}"),
+    }
+}
 fn main() {
-    // min -x + y s.t. 0<=0; -x-y=2
-    {
-        let mut vars = ProblemVariables::new();
-        let x = vars.add(variable().min(f64::NEG_INFINITY).max(f64::INFINITY));
-        let y = vars.add(variable().min(f64::NEG_INFINITY).max(f64::INFINITY));
-        let mut m = vars.minimise(-1.0 * x + y).using(clarabel);
-        m.add_constraint((0.0 * x + 0.0 * y).leq(0.0));
-        m.add_constraint((-1.0 * x - 1.0 * y).eq(2.0));
-        match m.solve() { Ok(s) => println!("A status {:?} x={} y={}", s.inner().status, s.value(x), s.value(y)), Err(e) => println!("A err {e:?}") }
-    }
-    {
-        let mut vars = ProblemVariables::new();
-        let x = vars.add(variable().min(f64::NEG_INFINITY).max(f64::INFINITY));
-        let y = vars.add(variable().min(f64::NEG_INFINITY).max(f64::INFINITY));
-        let mut m = vars.minimise(-1.0 * x + y).using(clarabel);
-        m.add_constraint((-1.0 * x - 1.0 * y).eq(2.0));
-        match m.solve() { Ok(s) => println!("A' (no empty row) status {:?} x={} y={}", s.inner().status, s.value(x), s.value(y)), Err(e) => println!("A' err {e:?}") }
-    }
-    {
-        let mut vars = ProblemVariables::new();
-        let x = vars.add(variable().min(f64::NEG_INFINITY).max(f64::INFINITY));
-        let y = vars.add(variable().min(f64::NEG_INFINITY).max(f64::INFINITY));
-        let mut m = vars.minimise(x + y).using(clarabel);
-        m.add_constraint((x + y).eq(2.0));
-        m.add_constraint((-1.0 * x - 1.0 * y).eq(2.0));
-        match m.solve() { Ok(s) => println!("B status {:?} x={} y={}", s.inner().status, s.value(x), s.value(y)), Err(e) => println!("B err {e:?}") }
-    }
+    let f = [false, false, false];
+    run("A empty-row unbounded", 2, &f, &[-1.0, 1.0], &[(&[0.0, 0.0], 1, 0.0), (&[-1.0, -1.0], 0, 2.0)]);
+    run("B contradictory eq", 2, &f, &[1.0, 1.0], &[(&[1.0, 1.0], 0, 2.0), (&[-1.0, -1.0], 0, 2.0)]);
+    run("C empty 0=-1", 2, &f, &[-1.0, -1.0], &[(&[-1.0, 1.0], 0, 2.0), (&[0.0, 0.0], 0, -1.0)]);
+    run("D regular infeasible?", 3, &f, &[-1.0, -1.0, -1.0], &[(&[-1.0, -1.0, 1.0], 0, 1.0), (&[-1.0, 1.0, 1.0], 0, 0.0)]);
+    run("E regular unbounded", 2, &f, &[1.0, 0.0], &[(&[1.0, -1.0], 0, 0.0), (&[-1.0, 1.0], 0, 0.0)]);
+    run("F good", 2, &[true, true], &[1.0, 1.0], &[(&[1.0, 1.0], 2, 1.0)]);
+    run("G good free", 2, &f, &[1.0, 1.0], &[(&[1.0, 1.0], 2, 1.0), (&[1.0, -1.0], 0, 0.0)]);
 }
